@@ -24,7 +24,16 @@ theorem cli_is_library_solve (env : Env) (sched : Sched ℝ) (draw : DrawFn ℝ)
         gameSolve env sched g o.method (if o.maxIters = 0 then u64Max else o.maxIters) o.maxRegret
           o.parallel (some o.discount.intoParams) draw = .ok sol ∧
         report g sum o.clipThreshold sol.stratOne sol.stratTwo = .ok out := by
-  sorry
+  constructor
+  · intro h
+    exact CliP.cliMain_ok h
+  · rintro ⟨g, sum, sol, hl, hsol, hr⟩
+    unfold cliMain
+    rw [hl]
+    simp only
+    unfold runGame CliOpts.iters
+    rw [hsol]
+    exact hr
 
 /-- the presets the `--discount` values denote -/
 theorem cli_discount_table :
@@ -32,8 +41,8 @@ theorem cli_discount_table :
     (Discount.lcfr.intoParams : RegretParams ℝ) = RegretParams.lcfr ∧
     (Discount.cfrPlus.intoParams : RegretParams ℝ) = RegretParams.cfrPlus ∧
     (Discount.dcfr.intoParams : RegretParams ℝ) = RegretParams.dcfr ∧
-    (Discount.dcfrPrune.intoParams : RegretParams ℝ) = RegretParams.dcfrPrune := by
-  sorry
+    (Discount.dcfrPrune.intoParams : RegretParams ℝ) = RegretParams.dcfrPrune :=
+  ⟨rfl, rfl, rfl, rfl, rfl⟩
 
 /-- **with the deterministic method the thread count is only a performance setting**: two runs
 that differ only in `--parallel` (and in the schedule of the worker threads) and both succeed
@@ -45,7 +54,22 @@ theorem cli_full_thread_invariant (env : Env) (sched sched' : Sched ℝ) (hs : s
     (h : cliMain env sched draw numName o fmt kind p = .ok out)
     (h' : cliMain env sched' draw numName { o with parallel := par' } fmt kind p = .ok out') :
     out = out' := by
-  sorry
+  obtain ⟨g, sum, sol, hl, hsol, hr⟩ := CliP.cliMain_ok h
+  obtain ⟨g', sum', sol', hl', hsol', hr'⟩ := CliP.cliMain_ok h'
+  rw [hl] at hl'
+  cases hl'
+  have hsol1 : gameSolve env sched g .full o.iters o.maxRegret o.parallel
+      (some o.discount.intoParams) draw = .ok sol := by rw [← hm]; exact hsol
+  have hsol2 : gameSolve env sched' g .full o.iters o.maxRegret par'
+      (some o.discount.intoParams) draw = .ok sol' := by rw [← hm]; exact hsol'
+  have hr2 : report g sum o.clipThreshold sol'.stratOne sol'.stratTwo = .ok out' := hr'
+  have e1 := full_thread_count_invariant env sched hs g _ _ _ _ draw sol hsol1
+  have e2 := full_thread_count_invariant env sched' hs' g _ _ _ _ draw sol' hsol2
+  rw [← e2] at e1
+  subst e1
+  rw [hr] at hr2
+  cases hr2
+  rfl
 
 /-- **input routes**: a file only the JSON parser accepts loads the same game through every
 route that is not forced to Gambit; a file only the Gambit parser accepts loads the same game
@@ -57,7 +81,13 @@ theorem cli_route_independent (numName : Nat → Nat) (p : Parsed ℝ) :
     (∀ f, p.json = none → p.gambit = some f →
       ∀ fmt kind, fmt ≠ .json → ¬ (kind = .dotJson ∧ fmt = .auto) →
         loadGame numName fmt kind p = gambitFromAst numName f) := by
-  sorry
+  constructor
+  · intro s hs fmt kind hf hk
+    cases fmt <;> cases kind <;>
+      simp_all [loadGame, jsonFromReader, autoFromReader]
+  · intro f hj hg fmt kind hf hk
+    cases fmt <;> cases kind <;>
+      simp_all [loadGame, gambitFromReader, autoFromReader]
 
 /-- **the clip step**: the pruned profile is printed exactly when its total regret is strictly
 lower than that of the unpruned one -/
@@ -67,7 +97,32 @@ theorem cli_clip_rule (g : Game ℝ) (sum clip : ℝ) (one two : Strat ℝ) :
           < (getInfo g (fun p => if p then one else two)).regret
       then assemble g sum (getInfo g (fun p => if p then truncate clip one else truncate clip two))
         (truncate clip one) (truncate clip two)
-      else assemble g sum (getInfo g (fun p => if p then one else two)) one two := by
-  sorry
+      else assemble g sum (getInfo g (fun p => if p then one else two)) one two := rfl
+
+/-! ## non-vacuity -/
+
+/-- the hypotheses of `cli_full_thread_invariant` are satisfiable: on a machine that can spawn
+threads the deterministic method prints a result with one thread and with two, under any two fair
+schedules -/
+example (sched sched' : Sched ℝ) (hs : sched.Fair) (hs' : sched'.Fair) (draw : DrawFn ℝ) (x : ℝ) :
+    let env : Env := ⟨1000, none, fun _ => true⟩
+    let o : CliOpts ℝ := ⟨0, none, 3, 1, .full, .dcfr⟩
+    let p : Parsed ℝ := ⟨some (.terminal x), none⟩
+    ∃ out out', cliMain env sched draw id o .json .stdin p = .ok out ∧
+      cliMain env sched' draw id { o with parallel := 2 } .json .stdin p = .ok out' ∧ out = out' := by
+  intro env o p
+  have hl : loadGame id .json .stdin p = .ok (⟨[], [], [], [], [], .term x⟩, 0) := by
+    simp [p, loadGame, jsonFromReader, jsonFromState, JState.toRaw, fromRootCli, fromRoot, compile]
+  obtain ⟨out, h⟩ := CliP.cliMain_succeeds (o := o) (env := env) hs (draw := draw) hl
+    (by simp [gameSolve, Env.threads, o]; exact rfl)
+  obtain ⟨out', h'⟩ := CliP.cliMain_succeeds (o := { o with parallel := 2 }) (env := env) hs'
+    (draw := draw) hl (by simp [gameSolve, Env.threads, env, o]; exact rfl)
+  exact ⟨out, out', h, h', cli_full_thread_invariant env sched sched' hs hs' draw id o rfl 2
+    .json .stdin p out out' h h'⟩
+
+/-- both halves of `cli_route_independent` have instances -/
+example : ∃ p : Parsed ℝ, ∃ s, p.json = some s := ⟨⟨some (.terminal 0), none⟩, _, rfl⟩
+example : ∃ p : Parsed ℝ, ∃ f, p.json = none ∧ p.gambit = some f :=
+  ⟨⟨none, some ⟨2, .term 2 [1, 1]⟩⟩, _, rfl, rfl⟩
 
 end Cfr
